@@ -279,3 +279,15 @@ Definition explain (c : case) :=
    | None => None end,
    match c_export c with Returned txt => read_export (c_numtab c) (unesc txt) | Raised => None end,
    model_agrees c).
+
+(* ---------- the text layer alone: parse_action_call on arbitrary short texts (exhaustive small scope) ---------- *)
+Record lexcase := { x_text : string; x_obs : obs (string * list string) }.
+
+Definition lex_model (c : lexcase) : obs (string * list string) :=
+  obs_of_result (do a <- parse_action_call (unesc_s (x_text c)); Ok (ac_name a, ac_args a)).
+
+Definition lex_agrees (c : lexcase) : bool :=
+  obs_eqb (fun a b => String.eqb (fst a) (fst b) && list_eqb String.eqb (snd a) (snd b)) (lex_model c) (x_obs c).
+
+Definition run_lex (cases : list lexcase) : string :=
+  t2s (map (fun c => if lex_agrees c then "."%char else "a"%char) cases).
